@@ -295,7 +295,10 @@ class Ctx:
         import warnings
 
         self._variant_counter += 1
-        kind = self._variant_counter % len(VARIANT_NAMES)
+        stride = int(self.call_variants)          # CALL_VARIANTS = k: every k-th eligible call gets a variant
+        if stride > 1 and self._variant_counter % stride:
+            return
+        kind = (self._variant_counter // max(1, stride)) % len(VARIANT_NAMES)
         name = getattr(fn, "__name__", repr(fn))
         if VARIANT_NAMES[kind] == "reused-buffer":
             # first the same call on what an EARLIER call left in the buffers (result discarded, any
